@@ -99,6 +99,9 @@ META = dict(
     level_note="trusted: numpy, pvm.ref.recurrence",
 )
 
+META["rule"] += (
+    " " + "Added after the second round: family 'long lines' (plateaus of 129 .. 300 samples: lines longer than 127 / 255).")
+
 SCALARS = [
     ("max_diaglength", "diag", None), ("determinism", "diag", "frac"),
     ("average_diaglength", "diag", "avg"), ("diag_entropy", "diag", "ent"),
